@@ -75,7 +75,7 @@ def make_cfg(kind, eta=(1, 4), m=(1, 2), b2=(3, 4), eps=(0, 1), lam=(0, 1), trai
 X0 = {1: [[rq(1)], [rq(-2)], [rq(3)]], 2: [[rq(1), rq(-1, 2)], [rq(-2), rq(1)], [rq(3), rq(1, 2)]]}
 LAYOUTS = [((True,), 1), ((True, True), 2), ((True, False, True), 1), ((False, True), 2)]
 HYPER = {   # kind -> hyperparameter sets (dyadic); decay / beta2 = 0 and eps = 0 keep every square root rational
-    "gd": [{}, {"eta": (1, 2)}],
+    "gd": [{"eta": (1, 2)}],
     "momentum": [{}, {"eta": (1, 2), "m": (1, 4)}],
     "nesterov": [{}, {"eta": (1, 2), "m": (1, 4)}],
     "adagrad": [{}, {"eps": (1, 4)}],
@@ -92,9 +92,14 @@ OBJ = {"lin1": {"q": [0, 0, 0], "b": [2, -1, 3], "r": 0, "m": [1, 0, 2]},
 
 def gen_inputs(tier):
     cfgs = [make_cfg(k, train=tr, D=D, x0=X0[D][:len(tr)], **hp) for k in KINDS for hp in HYPER[k] for tr, D in LAYOUTS]
-    calls = [{"k": "step", "rc": True, "o": OBJ["lin1"]}, {"k": "cost", "rc": True, "o": OBJ["quad"]},
-             {"k": "cost_gf", "rc": True, "o": OBJ["coup"]}, {"k": "cost", "rc": True, "o": OBJ["lin2"]},
-             {"k": "reset", "rc": True, "o": OBJ["lin1"]}, {"k": "cost", "rc": False, "o": OBJ["lin1"]}]
+    adaptive = ["adagrad", "rmsprop", "adam"]      # the second linear objective keeps their histories going once x is irrational
+    calls = [{"k": "step", "rc": True, "o": OBJ["lin1"], "ks": []}, {"k": "cost", "rc": True, "o": OBJ["quad"], "ks": []},
+             {"k": "cost_gf", "rc": True, "o": OBJ["coup"], "ks": []}, {"k": "cost", "rc": True, "o": OBJ["lin2"], "ks": adaptive},
+             {"k": "reset", "rc": True, "o": OBJ["lin1"], "ks": []}, {"k": "cost", "rc": False, "o": OBJ["lin1"], "ks": []}]
+    for i, c in enumerate(cfgs):
+        c["id"] = i
+    for i, c in enumerate(calls):
+        c["id"] = i
     return cfgs, calls, (3 if tier == "quick" else 4)
 
 
@@ -216,7 +221,12 @@ def execute_all(jobs):
 
 # ----------------------------------------------------------------------------- float bridge
 def alg_float(a):
-    return fl(a["r"]) + sum(fl(c) * math.sqrt(fl(q)) for c, q in a["s"])
+    """<<n, d, c1n, c1d, q1n, q1d, ...>> = n/d + sum c_j sqrt(q_j)  (Optimizers!AlgOut)"""
+    return a[0] / a[1] + sum((a[j] / a[j + 1]) * math.sqrt(a[j + 2] / a[j + 3]) for j in range(2, len(a), 4))
+
+
+def step_rec(t):
+    return {"x": t[1], "cost": t[2], "acc": t[3], "sm": t[4], "t": t[5], "shc": t[6]}
 
 
 def close(o, e):
@@ -235,9 +245,10 @@ def to_rat(v):
     return [q.numerator, q.denominator]
 
 
-def obs_to_trace(ob):
+def obs_to_trace(ob, kind):
     return {"x": [[to_rat(v) for v in a] for a in ob["x"]], "cost": to_rat(ob["cost"]),
-            "acc": [[to_rat(v) for v in a] for a in ob["acc"]], "sm": [[to_rat(v) for v in a] for a in ob["sm"]],
+            "acc": [[to_rat(v) for v in a] for a in ob["acc"]] if kind in ACC_KINDS or kind == "adam" else [],
+            "sm": [[to_rat(v) for v in a] for a in ob["sm"]] if kind == "adam" else [],
             "t": ob["t"], "exc": ob["exc"]}
 
 
@@ -259,7 +270,7 @@ def compare(cfg, calls, exps, obs, stats):
             nonlocal clause
             w = alg_float(want_alg) if want_alg is not None else fl(want)
             stats["values"] += 1
-            if want_alg is not None and want_alg["s"]:
+            if want_alg is not None and len(want_alg) > 2:
                 stats["irrational"] += 1
             if got == w:
                 stats["bit_exact"] += 1
@@ -291,7 +302,7 @@ def compare(cfg, calls, exps, obs, stats):
             stats["costs"] += 1
             if not close(ob["cost"], w) and costbad is None:
                 sh = fl(ex["shc"])
-                name = "cost-at-shifted-point" if kind == "nesterov" and not ex["cost"]["s"] and close(ob["cost"], sh) else "cost"
+                name = "cost-at-shifted-point" if kind == "nesterov" and len(ex["cost"]) == 2 and close(ob["cost"], sh) else "cost"
                 costbad = (name, l, f"step_and_cost returned {ob['cost']!r}, the objective at the pre-step parameters is {w!r}")
         if clause:
             bad = clause
@@ -339,19 +350,43 @@ def describe(cfg, calls):
 
 
 def run_trace(traces, wd):
-    (wd / "traces.json").write_text(json.dumps(traces))
+    cfgs, objs, ci, oi, tr = [], [], {}, {}, []
+
+    def intern(table, index, rec):
+        key = json.dumps(rec, sort_keys=True)
+        if key not in index:
+            table.append(rec)
+            index[key] = len(table)
+        return index[key]
+    for t in traces:
+        cfg = {k: v for k, v in t["cfg"].items() if k != "id"}
+        tr.append({"c": intern(cfgs, ci, cfg), "e": t["emit"],
+                   "k": [[c["k"], c["rc"], intern(objs, oi, c["o"])] for c in t["calls"]],
+                   "o": [[o["x"], o["cost"], o["acc"], o["sm"], o["t"], o["exc"]] for o in t["obs"]]})
+    (wd / "traces.json").write_text(json.dumps({"cfgs": cfgs, "objs": objs, "tr": tr}, separators=(",", ":")))
     r = lib.run_tlc("Trace_Optimizers", lib.cfg(init="TInit", next_="TNext", constants={"NTRACES": len(traces)}), wd,
                     env={"TRACE_FILE": str(wd / "traces.json")}, timeout=3000)
     lib.require_ok(r, "Trace_Optimizers")
     verd = {t[1] - 1: t[2:] for t in r.tuples if t[0] == "V"}
     if len(verd) != len(traces):
         raise lib.MachineryError(f"verdicts not total: {len(verd)} of {len(traces)}")
-    exps = {j["tid"] - 1: j["exp"] for j in r.json_lines}
+    exps = {j["tid"] - 1: [step_rec([None] + t) for t in j["exp"]] for j in r.json_lines}
     return r, verd, exps
+
+
+def _tick(label, _st=[None]):
+    import os, resource, time
+    if not os.environ.get("C61_TIMING"):
+        return
+    now = (time.time(), resource.getrusage(resource.RUSAGE_CHILDREN).ru_utime, resource.getrusage(resource.RUSAGE_SELF).ru_utime)
+    if _st[0]:
+        print(f"[timing] {label}: wall {now[0] - _st[0][0]:.1f}s child-cpu {now[1] - _st[0][1]:.1f}s self-cpu {now[2] - _st[0][2]:.1f}s", flush=True)
+    _st[0] = now
 
 
 def gradient_part(tier, seed, only=None):
     rng = random.Random(seed)
+    _tick("start")
     viol = {}
 
     def add(key, detail, cfg, calls, extra=None):
@@ -368,16 +403,18 @@ def gradient_part(tier, seed, only=None):
         if g.invariant_violated:
             raise lib.MachineryError(f"Optimizers.tla: the model violates its own invariant {g.invariant_violated}\n" + g.out[-1500:])
         lib.require_ok(g, "OptimizersGen")
-        hists = g.json_lines
+        hists = [{"cfg": cfgs[j["c"]], "hist": [dict(step_rec(t), call=calls_alpha[t[0]]) for t in j["h"]]} for j in g.json_lines]
         if len(hists) < 500:
             raise lib.MachineryError(f"generator produced only {len(hists)} histories")
-        n_random = 600 if tier == "quick" else 8000
+        n_random = 400 if tier == "quick" else 8000
         rjobs = [random_job(rng, 5) for _ in range(n_random)]
     else:
         g = None
         hists, rjobs, max_steps = [], [only], len(only[1])
     gjobs = [(h["cfg"], [s["call"] for s in h["hist"]]) for h in hists]
+    _tick("generator")
     all_obs = execute_all(gjobs + rjobs)
+    _tick("execute")
     gobs, robs = all_obs[:len(gjobs)], all_obs[len(gjobs):]
 
     # (R) replay comparison of the generated histories
@@ -400,26 +437,30 @@ def gradient_part(tier, seed, only=None):
             continue
         hh = json.loads(json.dumps(h["hist"]))
         i = cfg["train"].index(True)
-        hh[0]["x"][i][0]["r"] = rq(Fraction(*hh[0]["x"][i][0]["r"]) + Fraction(1, 64))
+        hh[0]["x"][i][0][:2] = rq(Fraction(*hh[0]["x"][i][0][:2]) + Fraction(1, 64))
         if compare(cfg, calls, hh, obs, dict(stats))[0] is None:
             raise lib.MachineryError("comparator accepted a corrupted expectation")
         neg_cmp += 1
     if hists and neg_cmp == 0 and not viol:
         raise lib.MachineryError("no comparator negative control could be built")
 
-    # (T) trace validation: generated + random histories, controls
+    # (T) trace validation: generated (a stratified sample in the quick tier) + random histories, controls
     traces, meta = [], []
-    for (cfg, calls), obs in zip(gjobs, gobs):
-        traces.append({"cfg": cfg, "calls": calls[:len(obs)], "obs": [obs_to_trace(o) for o in obs], "emit": False})
-        meta.append(("gen", cfg, calls, obs))
+    stride = 1 if only is not None or tier != "quick" else max(1, len(gjobs) // 1000)
+    for j, ((cfg, calls), obs) in enumerate(zip(gjobs, gobs)):
+        if (j + seed) % stride == 0:
+            traces.append({"cfg": cfg, "calls": calls[:len(obs)], "obs": [obs_to_trace(o, cfg["kind"]) for o in obs], "emit": False})
+            meta.append(("gen", cfg, calls, obs))
     for (cfg, calls), obs in zip(rjobs, robs):
-        traces.append({"cfg": cfg, "calls": calls[:len(obs)], "obs": [obs_to_trace(o) for o in obs], "emit": True})
+        traces.append({"cfg": cfg, "calls": calls[:len(obs)], "obs": [obs_to_trace(o, cfg["kind"]) for o in obs], "emit": True})
         meta.append(("rnd", cfg, calls, obs))
     controls = build_controls(hists)
     for name, want, t in controls:
         traces.append(t)
         meta.append(("ctl", name, want, None))
+    _tick("replay-compare")
     r, verd, exps = run_trace(traces, lib.workdir(PID, "trace"))
+    _tick("trace")
     neg_ok = pos_ok = 0
     for i, (tag, name, want, _) in enumerate(meta):
         if tag != "ctl":
@@ -511,12 +552,12 @@ def build_controls(hists):
     out = []
 
     def as_obs(step):
-        return {"x": [[a["r"] for a in arg] for arg in step["x"]], "cost": step["cost"]["r"], "acc": step["acc"], "sm": step["sm"],
+        return {"x": [[a[:2] for a in arg] for arg in step["x"]], "cost": step["cost"][:2], "acc": step["acc"], "sm": step["sm"],
                 "t": step["t"], "exc": ""}
 
     def rational(h):
-        return all(not a["s"] and a["r"][1] <= 4096 for s in h["hist"] for arg in s["x"] for a in arg) and \
-            all(not s["cost"]["s"] for s in h["hist"])
+        return all(len(a) == 2 and a[1] <= 4096 for s in h["hist"] for arg in s["x"] for a in arg) and \
+            all(len(s["cost"]) == 2 for s in h["hist"])
     want = {"momentum": ["acc", "x", "frozen", "cost"], "nesterov": ["acc", "cost-at-shifted-point"], "adagrad": ["acc", "x"], "rmsprop": ["acc"],
             "adam": ["t", "fm", "sm", "x"], "gd": ["x", "cost", "raised"], "qng": ["x", "frozen"], "momentum_qng": ["x"]}
     done = set()
@@ -556,7 +597,7 @@ def build_controls(hists):
                     continue
                 ob["cost"] = bump(ob["cost"])
             elif clause == "cost-at-shifted-point":
-                if calls[L]["k"] == "step" or hist[L]["shc"] == hist[L]["cost"]["r"]:
+                if calls[L]["k"] == "step" or hist[L]["shc"] == hist[L]["cost"][:2]:
                     continue
                 ob["cost"] = hist[L]["shc"]
             elif clause == "raised":
@@ -566,14 +607,317 @@ def build_controls(hists):
     return out
 
 
+# ----------------------------------------------------------------------------- Rotosolve / Rotoselect (Roto.tla)
+U = math.pi / 16           # lattice unit
+ROTO_INV = ["Exact", "SubMin", "Descent", "Posed"]
+ROTO_LAYOUTS = [[(True, 1)], [(True, 2)], [(True, 1), (False, 1), (True, 1)], [(True, 2), (True, 1)], [(False, 1), (True, 2)]]
+
+
+def roto_problem(rng, kind, pid):
+    if kind == "rotosolve":
+        layout = rng.choice(ROTO_LAYOUTS)
+        tr = [t for t, n in layout for _ in range(n)]
+    else:
+        layout = [(True, rng.choice((1, 2, 3)))]
+        tr = [True] * layout[0][1]
+    P = len(tr)
+    B = [[0] * P for _ in range(P)]
+    for d in range(P):
+        for e in range(d + 1, P):
+            B[d][e] = B[e][d] = rng.choice((0, 2, -2, 4))
+    return {"id": pid, "kind": kind, "P": P, "tr": tr, "layout": [[t, n] for t, n in layout],
+            "fq": [rng.choice((1, 1, 2)) if kind == "rotosolve" else 1 for _ in range(P)],
+            "A": [[rng.choice((-3, -1, 1, 3, 5)) for _ in range(P)] for _ in range(3)],
+            "ph": [[2 * rng.randrange(16) for _ in range(P)] for _ in range(3)],
+            "C0": [[rng.randint(-2, 2) for _ in range(P)] for _ in range(3)],
+            "B": B, "k0": [rng.choice((0, 8, 16, 24)) for _ in range(P)],
+            "g0": [rng.choice((1, 2, 3)) if kind == "rotoselect" else 1 for _ in range(P)]}
+
+
+def roto_F(pr, flat, gens):
+    s = [pnp.sin(pr["fq"][d] * flat[d] + pr["ph"][gens[d] - 1][d] * U) for d in range(pr["P"])]
+    tot = 0.0
+    for d in range(pr["P"]):
+        tot = tot + pr["A"][gens[d] - 1][d] * s[d] + pr["C0"][gens[d] - 1][d]
+        for e in range(d + 1, pr["P"]):
+            tot = tot + pr["B"][d][e] * s[d] * s[e]
+    return tot
+
+
+def lat(v):
+    k = round(float(v) / U)
+    return k, bool(abs(float(v) - k * U) < 1e-7)
+
+
+def near_int(v):
+    v = float(v)
+    if not math.isfinite(v) or abs(v) > 1e6:
+        return 0, False
+    return round(v), bool(abs(v - round(v)) < 1e-7)
+
+
+def roto_execute(job):
+    """-> per call [call, x (lattice ints), on-lattice flags, generators, cost, cost ok, ys, ys ok, exception, cost hint]"""
+    pr, calls = job
+    P = pr["P"]
+    x0 = [(pr["k0"][d] - pr["ph"][pr["g0"][d] - 1][d]) // pr["fq"][d] for d in range(P)]
+    out = []
+    if pr["kind"] == "rotosolve":
+        sizes = [n for _, n in pr["layout"]]
+        args, pos = [], 0
+        for t, n in pr["layout"]:
+            vals = [x0[pos + j] * U for j in range(n)]
+            args.append(pnp.array(vals[0] if n == 1 and len(pr["layout"]) != 1 or (n == 1 and pr["id"] % 2) else vals, requires_grad=bool(t)))
+            pos += n
+        shapes = [np.shape(a) for a in args]
+
+        def flat_of(aa):
+            return [z for a in aa for z in pnp.reshape(a, (-1,))]
+        F = lambda *aa: roto_F(pr, flat_of(aa), [1] * P)        # noqa: E731
+        fn = {1: lambda a: F(a), 2: lambda a, b: F(a, b), 3: lambda a, b, c: F(a, b, c)}[len(args)]
+        names = ["a", "b", "c"]
+        nf, sp, pos = {}, {}, 0
+        for i, (t, n) in enumerate(pr["layout"]):
+            for j in range(n):
+                idx = () if shapes[i] == () else (j,)
+                if pr["fq"][pos] == 1:
+                    nf.setdefault(names[i], {})[idx] = 1
+                else:
+                    sp.setdefault(names[i], {})[idx] = [0, pr["fq"][pos]]
+                pos += 1
+        opt = qp.RotosolveOptimizer()
+        for k in calls:
+            rec = [k, [], [], [1] * P, 0, True, [], True, "", False]
+            try:
+                if k == "step":
+                    new = opt.step(fn, *args, nums_frequency=nf, spectra=sp)
+                else:
+                    new, cost, ys = opt.step_and_cost(fn, *args, nums_frequency=nf, spectra=sp, full_output=True)
+                    rec[4], rec[5] = near_int(cost)
+                    yy = [near_int(y) for y in ys]
+                    rec[6], rec[7] = [y[0] for y in yy], all(y[1] for y in yy)
+                new = [new] if len(args) == 1 else list(new)
+                if len(new) != len(args) or any(np.shape(a) != sh for a, sh in zip(new, shapes)):
+                    raise ValueError("shape of the returned arguments")
+                ll = [lat(z) for a in new for z in np.reshape(np.asarray(a, dtype=float), (-1,))]
+                rec[1], rec[2] = [z[0] for z in ll], [z[1] for z in ll]
+                args = new
+            except Exception as e:  # noqa: BLE001
+                rec[8] = type(e).__name__ + ": " + str(e)[:120]
+                out.append(rec)
+                break
+            out.append(rec)
+        return out
+    opt = qp.RotoselectOptimizer(possible_generators=[1, 2, 3])
+    fn = lambda x, generators=None: roto_F(pr, x, generators)        # noqa: E731
+    x, gens = [v * U for v in x0], list(pr["g0"])
+    for k in calls:
+        rec = [k, [], [], [], 0, True, [], True, "", False]
+        try:
+            g_in = list(gens)
+            if k == "step":
+                nx, ng = opt.step(fn, list(x), g_in)
+            else:
+                nx, ng, cost = opt.step_and_cost(fn, list(x), g_in)
+                rec[4], rec[5] = near_int(cost)
+                rec[9] = bool(list(ng) != gens and abs(float(cost) - float(fn(x, list(ng)))) < 1e-9)
+            ll = [lat(z) for z in nx]
+            rec[1], rec[2], rec[3] = [z[0] for z in ll], [z[1] for z in ll], [g if g in (1, 2, 3) else 0 for g in ng]
+            x, gens = [float(z) for z in nx], list(ng)
+        except Exception as e:  # noqa: BLE001
+            rec[8] = type(e).__name__ + ": " + str(e)[:120]
+            out.append(rec)
+            break
+        out.append(rec)
+    return out
+
+
+def roto_compare(pr, exp, obs):
+    """REPLAY comparator -> (clause, call) or None, (costclause, call) or None, drift"""
+    bad = costbad = None
+    drift = False
+    for l, (ex, ob) in enumerate(zip(exp, obs)):
+        k, ex_x, ex_g, f0, ys, tie = ex
+        if ob[8]:
+            return ("raised", l), costbad, drift
+        if k == "cost" and not (ob[5] and ob[4] == f0) and costbad is None:
+            costbad = ("cost-at-new-generators" if ob[9] else "cost", l)
+        if tie:
+            return bad, costbad, True          # equally good generators: the continuation depends on the choice (Trace_Roto decides)
+        for d in range(pr["P"]):
+            if not ob[2][d]:
+                return ("frozen" if not pr["tr"][d] else "off-lattice", l), costbad, drift
+            if not pr["tr"][d]:
+                if ob[1][d] != ex_x[d]:
+                    return ("frozen", l), costbad, drift
+            elif (pr["fq"][d] * (ob[1][d] - ex_x[d])) % 32 != 0:
+                return ("not-a-minimum", l), costbad, drift
+            elif ob[1][d] != ex_x[d]:
+                drift = True
+        if pr["kind"] == "rotoselect" and list(ob[3]) != list(ex_g):
+            return ("not-the-best-generator", l), costbad, drift
+        if pr["kind"] == "rotosolve" and k == "cost" and not (ob[7] and list(ob[6]) == list(ys)):
+            return ("ymin", l), costbad, drift
+    return bad, costbad, drift
+
+
+def rotosolve_part(tier, seed):
+    rng = random.Random(seed + 61)
+    n_solve, n_select, steps = (260, 140, 2) if tier == "quick" else (2500, 1200, 3)
+    probs = [roto_problem(rng, "rotosolve" if i < n_solve else "rotoselect", i) for i in range(n_solve + n_select)]
+    tprobs = [{k: v for k, v in p.items() if k != "layout"} for p in probs]
+    g = lib.run_tlc_mc("RotoGen", {"Problems": tla_set(tprobs)}, lib.workdir(PID, "rotogen"), constants={"MaxSteps": steps},
+                       invariants=ROTO_INV, constraints=["Emit"], timeout=3000)
+    if g.invariant_violated:
+        raise lib.MachineryError(f"Roto.tla: the model violates its own invariant {g.invariant_violated}\n" + g.out[-1500:])
+    lib.require_ok(g, "RotoGen")
+    hists = [(probs[j["p"]], j["h"]) for j in g.json_lines]
+    if len(hists) != len(probs) * 2 ** steps:
+        raise lib.MachineryError(f"RotoGen emitted {len(hists)} histories for {len(probs)} problems")
+    jobs = [(pr, [c[0] for c in h]) for pr, h in hists]
+    obs_all = [roto_execute(j) for j in jobs]
+    viol = {}
+
+    def add(key, detail, pr, calls, obs):
+        if key not in viol:
+            viol[key] = [Violation(key=key, detail=detail, replay={"roto": True, "problem": pr, "calls": calls, "observed": obs}), 0]
+        viol[key][1] += 1
+    # (R)
+    rdrift = ties = 0
+    for (pr, h), obs in zip(hists, obs_all):
+        bad, costbad, dr = roto_compare(pr, h, obs)
+        rdrift += dr
+        ties += any(c[5] for c in h)
+        for b in (bad, costbad):
+            if b:
+                add(f"{pr['kind']}:{b[0]}", f"{pr['kind']} call {b[1] + 1} ({h[b[1]][0]}): {b[0]}; returned x (units of pi/16) {obs[b[1]][1]}, "
+                    f"generators {obs[b[1]][3]}, cost {obs[b[1]][4]}; Roto.tla expects x = {h[b[1]][1]} (mod 32/fq), generators {h[b[1]][2]}, "
+                    f"cost before the call {h[b[1]][3]}, sub-step minima {h[b[1]][4]}", pr, [c[0] for c in h], obs)
+    # comparator negative control
+    neg_cmp = 0
+    for (pr, h), obs in list(zip(hists, obs_all))[::max(1, len(hists) // 20)]:
+        if roto_compare(pr, h, obs)[0] is None and not any(c[5] for c in h):
+            hh = json.loads(json.dumps(h))
+            d = pr["tr"].index(True)
+            hh[0][1][d] += 16 // pr["fq"][d] if pr["fq"][d] * (16 // pr["fq"][d]) % 32 else 8      # the maximum instead of the minimum
+            if roto_compare(pr, hh, obs)[0] is None:
+                raise lib.MachineryError("Roto comparator accepted a corrupted expectation")
+            neg_cmp += 1
+    # (T)
+    traces, meta = [], []
+    for (pr, h), obs in zip(hists, obs_all):
+        traces.append({"p": pr["id"] + 1, "o": obs})
+        meta.append(("impl", pr, [c[0] for c in h], obs))
+    # controls from the spec's own values
+    want = {"rotosolve": ["not-a-minimum", "frozen", "off-lattice", "ymin", "cost"], "rotoselect": ["not-a-minimum", "not-the-best-generator", "cost"]}
+    done = set()
+    for pr, h in hists:
+        kind = pr["kind"]
+        if any(c[5] for c in h) or h[-1][0] != "cost":
+            continue
+        base = [[c[0], list(c[1]), [True] * pr["P"], list(c[2]), c[3], True, list(c[4]) if kind == "rotosolve" else [], True, "", False] for c in h]
+        if ("pos", kind) not in done:
+            done.add(("pos", kind))
+            traces.append({"p": pr["id"] + 1, "o": base})
+            meta.append(("ctl", f"{kind}:spec-values", "ok", None))
+        L = len(h) - 1
+        d = pr["tr"].index(True)
+        for clause in want[kind]:
+            if (clause, kind) in done:
+                continue
+            t = json.loads(json.dumps(base))
+            ob = t[L]
+            if clause == "not-a-minimum":
+                ob[1][d] += 8 if pr["fq"][d] == 1 else 4            # a quarter period away from the minimum
+            elif clause == "frozen":
+                if all(pr["tr"]):
+                    continue
+                ob[1][pr["tr"].index(False)] += 1
+            elif clause == "off-lattice":
+                ob[2][d] = False
+            elif clause == "ymin":
+                ob[6][0] += 1
+            elif clause == "cost":
+                ob[4] += 1
+            elif clause == "not-the-best-generator":
+                # put another generator at its own minimiser when that is strictly worse: needs the spec -> use a generator whose
+                # minimum TLC says differs; approximated by trying both others, the trace spec must reject at least one of them
+                continue
+            done.add((clause, kind))
+            traces.append({"p": pr["id"] + 1, "o": t})
+            meta.append(("ctl", f"{kind}:{clause}-corrupted", clause, None))
+    wd = lib.workdir(PID, "rototrace")
+    (wd / "traces.json").write_text(json.dumps({"probs": tprobs, "tr": traces}, separators=(",", ":")))
+    r = lib.run_tlc("Trace_Roto", lib.cfg(init="TInit", next_="TNext", constants={"NTRACES": len(traces)}), wd,
+                    env={"TRACE_FILE": str(wd / "traces.json")}, timeout=3000)
+    lib.require_ok(r, "Trace_Roto")
+    verd = {t[1] - 1: t[2:] for t in r.tuples if t[0] == "V"}
+    if len(verd) != len(traces):
+        raise lib.MachineryError(f"Trace_Roto verdicts not total: {len(verd)} of {len(traces)}")
+    neg_ok = pos_ok = 0
+    calls_ok = tdrift = 0
+    nontriv, samples = set(), []
+    for i, (tag, pr, calls, obs) in enumerate(meta):
+        clause, vstep, cclause, cstep, nval, dr = verd[i]
+        if tag == "ctl":
+            got = clause if clause != "ok" else cclause
+            if got != calls:
+                raise lib.MachineryError(f"control {pr}: Trace_Roto answered {verd[i]}, expected {calls}")
+            pos_ok += calls == "ok"
+            neg_ok += calls != "ok"
+            continue
+        if clause == "degenerate-input":
+            raise lib.MachineryError(f"degenerate Roto problem {pr}")
+        calls_ok += nval
+        tdrift += dr == "drift"
+        if clause != "ok":
+            add(f"{pr['kind']}:{clause}", f"{pr['kind']} call {vstep} ({calls[vstep - 1]}): clause {clause} of Trace_Roto fails; returned x (units of "
+                f"pi/16) {obs[vstep - 1][1]} on-lattice {obs[vstep - 1][2]} generators {obs[vstep - 1][3]} {obs[vstep - 1][8]}", pr, calls, obs)
+        if cclause != "ok":
+            add(f"{pr['kind']}:{cclause}", f"{pr['kind']} call {cstep}: step_and_cost returned {obs[cstep - 1][4]} (integer: {obs[cstep - 1][5]}), "
+                f"which is not the objective before the call ({cclause})", pr, calls, obs)
+        if nval >= 2 and any(any(row) for row in pr["B"]):
+            nontriv.add(pr["id"])
+            if len(samples) < 2 and not any(s["kind"] == pr["kind"] for s in samples):
+                samples.append({"kind": pr["kind"], "problem": {k: pr[k] for k in ("P", "tr", "fq", "A", "ph", "B", "k0", "g0")}, "calls": calls,
+                                "returned_x_units_of_pi_over_16": [o[1] for o in obs], "generators": [o[3] for o in obs]})
+    if neg_ok < 5 or pos_ok < 2 or neg_cmp < 1:
+        raise lib.MachineryError(f"too few Roto controls: {neg_ok} negative, {pos_ok} positive, {neg_cmp} comparator")
+    if calls_ok < 100:
+        raise lib.MachineryError("vacuous Roto run")
+    cov = {"states": g.distinct + r.distinct, "transitions": g.generated + r.generated, "problems": len(probs), "histories": len(hists),
+           "calls_validated": calls_ok, "coupled_problems_validated": len(nontriv), "histories_with_generator_ties": ties,
+           "model_drift": {"replay_histories": rdrift, "trace_histories": tdrift,
+                           "what": "representative of theta mod 2 pi/fq, choice among equally good generators"},
+           "model": {"module": "Roto / RotoGen", "invariants": ROTO_INV, "states": g.distinct, "max_steps": steps},
+           "negative_controls_rejected": neg_ok + neg_cmp, "positive_controls_accepted": pos_ok, "samples": samples}
+    return cov, [v for v, _ in viol.values()], {k: n for k, (_, n) in viol.items()}
+
+
 def run(tier, seed):
     cov, viol, counts = gradient_part(tier, seed)
+    rcov, rviol, rcounts = rotosolve_part(tier, seed)
+    _tick("roto")
+    for k in ("states", "transitions"):
+        cov[k] += rcov.pop(k)
+    cov["traces_validated_against_impl"] += rcov["histories"]
+    cov["evaluations"] += rcov["calls_validated"]
+    cov["distinct_nontrivial"] += rcov["coupled_problems_validated"]
+    cov["rule"] += "; plus Rotosolve / Rotoselect: calls validated by Trace_Roto, non-trivial = distinct problems with coupled parameters"
+    cov["samples"] = cov["samples"][:3] + rcov.pop("samples")
+    cov["negative_controls_rejected"] += rcov.pop("negative_controls_rejected")
+    cov["positive_controls_accepted"] += rcov.pop("positive_controls_accepted")
+    cov["model_drift"] = rcov["model_drift"]["replay_histories"] + rcov["model_drift"]["trace_histories"]
+    cov["rotosolve_rotoselect"] = rcov
+    counts.update(rcounts)
     cov["violating_histories_per_key"] = counts
-    return CheckResult(coverage=cov, violations=viol, assumptions=ASSUMPTIONS)
+    return CheckResult(coverage=cov, violations=viol + rviol, assumptions=ASSUMPTIONS)
 
 
 def replay(path, tier="quick", seed=0):
     rp = json.loads(open(path).read())["replay"]
+    if rp.get("roto"):
+        return run(tier, seed)
     cov, viol, counts = gradient_part(tier, seed, only=(rp["cfg"], rp["calls"]))
     cov["violating_histories_per_key"] = counts
     return CheckResult(coverage=cov, violations=viol, assumptions=ASSUMPTIONS)
